@@ -224,3 +224,71 @@ def sig_older_revision(**kw):
     if "ex" in kw:
         return any(IMPL_ALPHA[kw[k]][0] in ("rb", "rtc") or IMPL_ALPHA[kw[k]] == ("p", SVG) for k in ("s0", "s1", "s2", "s3")[:kw["d"]])
     return any(STACK_ALPHA[kw[k]][0] == "template" for k in ("s0", "s1", "s2", "s3")[:kw["d"]])
+
+
+# ---------------------------------------------------------------- adoption agency: outer-loop bound (8 iterations)
+def adoption_outer_loop(k: int, fi: int) -> bool:
+    """
+    pre: 0 <= k <= 12 and 0 <= fi <= 2
+    post: _
+    """
+    kk = 0
+    while kk < k:
+        kk += 1
+    f = ("b", "i", "a")[pick(3, fi)]
+    with untraced():
+        # <f> + k nested block elements + 'x</f>y'.  Every run of the adoption agency's outer loop moves the formatting element
+        # one block level down (furthest block = the next div) and one more run (no furthest block) finishes; the standard runs the
+        # outer loop at most 8 times, so k blocks need k + 1 runs: 'y' ends up outside every <f> for k <= 7 and inside the last
+        # clone for k >= 8.  'x' is always inside an <f>.
+        src = "<%s>" % f + "<div>" * kk + "x</%s>y" % f
+        t = html5lib.parse(src, treebuilder="dom")
+        def text_node(node, s):
+            for c in node.childNodes:
+                if c.nodeType == c.TEXT_NODE and c.nodeValue == s:
+                    return c
+                if c.nodeType == c.ELEMENT_NODE:
+                    r = text_node(c, s)
+                    if r is not None:
+                        return r
+            return None
+        def inside(n, name):
+            n = n.parentNode
+            while n is not None and n.nodeType == n.ELEMENT_NODE:
+                if n.nodeName == name:
+                    return True
+                n = n.parentNode
+            return False
+        x, y = text_node(t, "x"), text_node(t, "y")
+        if x is None or y is None:
+            return False
+        if kk == 0:
+            return inside(x, f) and not inside(y, f)
+        return inside(x, f) and (inside(y, f) == (kk >= 8))
+
+# ---------------------------------------------------------------- table text: only ASCII whitespace stays inside the table
+def table_text(t: str, ctx: int) -> bool:
+    """
+    pre: 1 <= len(t) <= P("tlen", 2) and 0 <= ctx <= 2
+    pre: all(ch not in "<&" and ch != chr(0) and ch != chr(13) and not (chr(0xD800) <= ch <= chr(0xDFFF)) for ch in t)
+    post: _
+    """
+    from harness.parsecommon import ChunkSrc
+    from html5lib import _inputstream
+    _inputstream.HTMLUnicodeInputStream.characterErrorsUCS4 = lambda self, data: None     # invalid-code-point scan realises symbolic text; decided in C05
+    opener = ("<table>", "<table><tbody>", "<table><tr>")[pick(3, ctx)]
+    p = html5parser.HTMLParser(tree=builder("dom"))
+    doc = p.parse(ChunkSrc([opener, t, "</table>"]))
+    table = doc.getElementsByTagName("table")[0]
+    def has_text(node):
+        for c in node.childNodes:
+            if c.nodeType == c.TEXT_NODE and c.nodeValue != "":
+                return True
+            if c.nodeType == c.ELEMENT_NODE and has_text(c):
+                return True
+        return False
+    inside = has_text(table)
+    # standard ("in table text"): pending characters are inserted in place iff ALL of them are ASCII whitespace
+    # (TAB, LF, FF, CR, SPACE); otherwise they are foster-parented in front of the table
+    allws = all(ch in "\t\n\x0c\r " for ch in t)
+    return inside == allws
